@@ -44,6 +44,7 @@ type Cfg struct {
 	Dom     int    `json:"dom"`             // size of the element table
 	VDom    int    `json:"vdom,omitempty"`  // size of the value table (bidi maps)
 	MapSeed uint64 `json:"mapseed"`         // seed of the map-iteration permutations (S3)
+	Ctor    string `json:"ctor,omitempty"`  // "default": built with New (the package's default comparator) instead of NewWith
 	Mode    string `json:"mode,omitempty"`  // world-specific mode
 	Strat   string `json:"strat,omitempty"` // interleaving strategy
 	SwitchP int    `json:"switchp,omitempty"`
